@@ -324,6 +324,8 @@ def run(ctx):
     from props.c01 import exclusive_rule
     exclusive_rule(ctx, syn, rid="C05.EXCLUSIVE")   # annotation -> sub-store membership decides into which file an annotation is written
     walk_rule(ctx, syn)
+    from props.c15 import workdir_rule
+    workdir_rule(ctx, syn, rid="C05.WORKDIR")   # the @include of a stand-off file is written through the same helper
     mir_rules(ctx)
 
 
